@@ -135,6 +135,27 @@ type Control struct {
 	KeepTrace bool
 	Trace    []string
 	TornDone string
+	// a slow or stalled process: the first call whose kind is StallKind parks (Stalled is closed)
+	// until Release is closed, then goes on as if nothing had happened
+	StallKind string
+	Stalled   chan struct{}
+	Release   chan struct{}
+}
+
+// stall parks the caller if this is the call the simulator wants to hold. Never under c.mu.
+func (c *Control) stall(kind string) {
+	c.mu.Lock()
+	hit := c.StallKind != "" && c.StallKind == kind && c.Stalled != nil
+	var st, rel chan struct{}
+	if hit {
+		st, rel = c.Stalled, c.Release
+		c.StallKind = ""
+	}
+	c.mu.Unlock()
+	if hit {
+		close(st)
+		<-rel
+	}
 }
 
 func (c *Control) logf(format string, a ...interface{}) {
@@ -224,6 +245,7 @@ func (s *SimRepo) Close() error {
 	if s.C.IsFrozen() {
 		return ErrFrozen
 	}
+	s.C.stall("Close")
 	return s.Inner.Close()
 }
 
@@ -519,6 +541,7 @@ func (g *gateFS) TempFile(dir, prefix string) (billy.File, error) {
 
 func (g *gateFS) Remove(filename string) error {
 	if c := g.ctl(); c != nil {
+		c.stall("fs.Remove")
 		if _, err := c.gate("fs.Remove", true, filename); err != nil {
 			return err
 		}
